@@ -14,7 +14,7 @@ import (
 func init() {
 	register(&propDef{
 		ID:          "C18",
-		Explanation: "Decides, for package lsp/jsonrpc2 (every function; go/cfg locksets and dominance, type-resolved): R1 every call of the Stream interface's Write holds one and the same write mutex of the connection (so whole frames are serialised) and all senders go through that one function; R2 in the framed stream's Write the length printed in the header is len() of the very byte slice passed to the following Write on the connection, with the Content-Length name and the blank-line separator as constants and no arithmetic on the length; R3 in the framed stream's Read the body buffer is make([]byte, length) with length parsed from the header, filled by io.ReadFull, on paths where length ≤ 0 and a missing header were rejected, and the header-line slice expressions are dominated by the `colon < 0` rejection; R4 in Call the reply channel is registered in the pending map (under its mutex) before the request is sent, has capacity ≥ 1, its removal is deferred, every access to the pending map holds its mutex, and the reader delivers a response only to the channel looked up by the response's own id; R5 the wait in Call selects on the reply and on ctx.Done(); also R3 the announced length has an upper bound before it sizes the allocation (a parse of at most 32 bits, or an explicit maximum test that dominates make), R4 the reply channel is made by the call itself (never recycled), and R6 DecodeMessage rejects no frame on a wire field that is optional (omitempty) and that this package's own encoder can leave null., R2 after a successful header write the body write follows on every path, and R7 no number parsed from the wire is narrowed by a conversion. R8 no goroutine of package jsonrpc2 writes to a stream's transport below the write lock (a frame is complete before the sender releases the lock); R9 the select in which a call waits for its response has no exit besides the response and the caller's context. NOT decided: all chunkings / schedules, JSON decoding of bodies. R10 no value holding a sync primitive by value is copied in package jsonrpc2 (a copied write lock excludes nobody); R11 the id decoder decodes into an integer or a string, never into json.Number or an interface (both accept the other JSON form: the string id \"7\" would become the number 7). R12/R13 no error result of package jsonrpc2 is dropped or detected and not reported; R14 every return leaves locks released; R15 the body of a frame is written to a writer that forwards on every path (a writer type of this package that tests the context first can refuse the body after the header went out). R3 also: the header loop leaves at the first empty line on every path (no `continue` there), and a line-splitting helper is followed for the colon guard. R5 follows a helper that is handed the reply channel. R16 the kind of a decoded message is not decided by the nil-ness of a *json.RawMessage member (absent and null are the same to encoding/json, and the response writer sends \"result\":null).",
+		Explanation: "Decides, for package lsp/jsonrpc2 (every function; go/cfg locksets and dominance, type-resolved): R1 every call of the Stream interface's Write holds one and the same write mutex of the connection (so whole frames are serialised) and all senders go through that one function; R2 in the framed stream's Write the length printed in the header is len() of the very byte slice passed to the following Write on the connection, with the Content-Length name and the blank-line separator as constants and no arithmetic on the length; R3 in the framed stream's Read the body buffer is make([]byte, length) with length parsed from the header, filled by io.ReadFull, on paths where length ≤ 0 and a missing header were rejected, and the header-line slice expressions are dominated by the `colon < 0` rejection; R4 in Call the reply channel is registered in the pending map (under its mutex) before the request is sent, has capacity ≥ 1, its removal is deferred, every access to the pending map holds its mutex, and the reader delivers a response only to the channel looked up by the response's own id; R5 the wait in Call selects on the reply and on ctx.Done(); also R3 the announced length has an upper bound before it sizes the allocation (a parse of at most 32 bits, or an explicit maximum test that dominates make), R4 the reply channel is made by the call itself (never recycled), and R6 DecodeMessage rejects no frame on a wire field that is optional (omitempty) and that this package's own encoder can leave null., R2 after a successful header write the body write follows on every path, and R7 no number parsed from the wire is narrowed by a conversion. R8 no goroutine of package jsonrpc2 writes to a stream's transport below the write lock (a frame is complete before the sender releases the lock); R9 the select in which a call waits for its response has no exit besides the response and the caller's context. NOT decided: all chunkings / schedules, JSON decoding of bodies. R10 no value holding a sync primitive by value is copied in package jsonrpc2 (a copied write lock excludes nobody); R11 the id decoder decodes into an integer or a string, never into json.Number or an interface (both accept the other JSON form: the string id \"7\" would become the number 7). R12/R13 no error result of package jsonrpc2 is dropped or detected and not reported; R14 every return leaves locks released; R15 the body of a frame is written to a writer that forwards on every path (a writer type of this package that tests the context first can refuse the body after the header went out). R3 also: the header loop leaves at the first empty line on every path (no `continue` there), and a line-splitting helper is followed for the colon guard. R5 follows a helper that is handed the reply channel. R16 the kind of a decoded message is not decided by the nil-ness of a *json.RawMessage member (absent and null are the same to encoding/json, and the response writer sends \"result\":null). R17 no method makes a buffering reader or decoder over a field of its receiver (the reader belongs to the stream); R18 in a type switch over a decoded id, string arms build string ids only and numeric arms number ids only (packages lsp/jsonrpc2 and lsp/protocol).",
 		Assumptions: []string{"io.ReadFull returns an error unless exactly len(buf) bytes were read", "sync.Mutex provides mutual exclusion"},
 		Trusted:     []string{"go/types", "x/tools go/packages, go/cfg"},
 		Run:         runC18,
@@ -31,6 +31,9 @@ func runC18(c *Ctx) {
 	locksReleasedOnEveryReturn(c, "C18.R14", "lsp/jsonrpc2")
 	frameIsNotCutShort(c, "C18.R15")
 	messageKindNotDecidedByNullableMembers(c, "C18.R16")
+	decoderLivesWithItsStream(c, "C18.R17", "lsp/jsonrpc2")
+	c.load("./lsp/protocol")
+	idKindsAreNotConverted(c, "C18.R18", "lsp/jsonrpc2", "lsp/protocol")
 	idFormsDecodedIntoTheirOwnTypes(c, "C18.R11")
 	errorsNotLost(c, "C18.R12", "lsp/jsonrpc2")
 	errorsFoundAreReported(c, "C18.R13", "lsp/jsonrpc2")
